@@ -30,6 +30,22 @@ def load(prop):
     return importlib.import_module(f"vf.props.{prop.lower()}")
 
 
+def shard_cases(mod, tier, seed, n, k, nshards):
+    """deterministic assignment; modules may give per-case weights for balance (longest first)"""
+    w = getattr(mod, "case_weight", None)
+    if w is None:
+        return list(range(k, n, nshards))
+    order = sorted(range(n), key=lambda i: (-w(i, tier, seed), i))
+    load = [0.0] * nshards
+    mine = []
+    for i in order:
+        j = min(range(nshards), key=lambda x: (load[x], x))
+        load[j] += w(i, tier, seed)
+        if j == k:
+            mine.append(i)
+    return mine
+
+
 def run_shard(prop, tier, seed, k, nshards, out_path):
     """executed inside a worker process"""
     import faulthandler
@@ -49,7 +65,7 @@ def run_shard(prop, tier, seed, k, nshards, out_path):
 
     signal.signal(signal.SIGALRM, on_alarm)
     with open(out_path, "w") as out:
-        for i in range(k, n, nshards):
+        for i in shard_cases(mod, tier, seed, n, k, nshards):
             signal.alarm(per_case)
             t0 = time.time()
             try:
